@@ -119,9 +119,12 @@ struct DoubleCase
    std::vector<const SVectorBase<double>*> ptr;
    double minStab;
    bool factorized;
+   // bookkeeping of SPxBasisBase (defaults: maxUpdates 200, nonzeroFactor 10, fillFactor 5, memFactor 1.5)
+   int updateCount, nzCount, lastMem, lastNzCount;
+   double lastFill;
 
    DoubleCase(int dim, int utype, double mark) : n(dim), tol(std::make_shared<Tolerances>()), cols(dim), ptr(dim),
-      minStab(0), factorized(false)
+      minStab(0), factorized(false), updateCount(0), nzCount(1), lastMem(0), lastNzCount(0), lastFill(0)
    {
       f.setTolerances(tol);
       f.setUtype(utype == 0 ? LUD::ETA : LUD::FOREST_TOMLIN);
@@ -149,7 +152,16 @@ struct DoubleCase
    // mirrors SPxBasisBase<R>::factorize()
    std::string load()
    {
+      updateCount = 0;
+      nzCount = 0;
+
+      for(int j = 0; j < n; j++)
+         nzCount += cols[j].size();
+
       int st = (int) f.load(ptr.data(), n);
+      lastMem = f.memory();
+      lastFill = 5.0 * double(lastMem) / double(nzCount > 0 ? nzCount : 1);
+      lastNzCount = int(10.0 * double(nzCount > 0 ? nzCount : 1));
       std::ostringstream o;
       o << "status=" << statName(st);
 
@@ -381,9 +393,22 @@ struct DoubleCase
          }
 
          // the matrix changes (as SPxBasisBase::change does before calling the factorization)
+         nzCount = nzCount - cols[idx].size() + col.size();
          cols[idx] = col;
+         ++updateCount;
          int refac = 0;
          int st;
+
+         // the refactorization triggers of SPxBasisBase::change, in its order: memory growth, relative fill, absolute
+         // number of non-zeros, number of updates
+         if(double(f.memory()) > 1000 + f.dim() + lastMem * 1.5 || double(f.memory()) > lastFill * double(nzCount)
+               || nzCount > lastNzCount || updateCount >= 200)
+         {
+            load();
+            st = (int) f.status();
+            std::cout << "CHG status=" << statName(st) << " refac=3" << o.str() << std::endl;
+            return;
+         }
 
          try
          {
